@@ -318,23 +318,31 @@ OkInter == {x \in InterPool : PoolOK(EmbedInter(x))}
 OkHdr == {h \in HeaderPool : PoolOK(EmbedHdr(h))}
 MixedDesc(i) ==
   LET sc == RandomElement(OkSign)
-      l2 == [DefLanelet(2) EXCEPT !.signs = <<21>>, !.lights = <<31>>]
+      la == RandomElement(OkLanelet)
+      s2 == IF 22 \in Range(SignsOf(la)) THEN <<[sc[1] EXCEPT !.id = 22, !.virt = 0]>> ELSE <<>>      \* what lanelet 1 refers to exists
+      t2 == IF 32 \in Range(LightsOf(la)) THEN <<DefLight(32)>> ELSE <<>>
+      l2 == [DefLanelet(2) EXCEPT !.signs = <<21>> \o [k \in DOMAIN s2 |-> 22], !.lights = <<31>> \o [k \in DOMAIN t2 |-> 32]]
   IN [hdr |-> [RandomElement(OkHdr) EXCEPT !.cid = sc[2]],
-      lanelets |-> <<RandomElement(OkLanelet), l2, DefLanelet(3)>>,
-      signs |-> <<sc[1]>>, lights |-> <<RandomElement(OkLight)>>, inters |-> <<RandomElement(OkInter)>>,
+      lanelets |-> <<la, l2, DefLanelet(3)>>,
+      signs |-> <<sc[1]>> \o s2, lights |-> <<RandomElement(OkLight)>> \o t2, inters |-> <<RandomElement(OkInter)>>,
       obstacles |-> <<ReId(RandomElement(OkObstByRole["static"]), 51), ReId(RandomElement(OkObstByRole["dynamic"]), 52),
                       ReId(RandomElement(OkObst), 53), ReId(RandomElement(OkObstByRole["dynamic"]), 54)>>,
       pps |-> <<RandomElement(OkPP), ReId(RandomElement(OkPP), 92)>>]
 
+BothRefs(la) == \E s \in Range(la.stop) : s.sref # <<>> /\ s.lref # <<>>
+Rotate(comp, pool, Embed(_)) == LET sq == SetToSeq(pool) IN
+                                {Case(comp, 4, Renumber(Embed(sq[i]), IdTokens[(i % Len(IdTokens)) + 1])) : i \in DOMAIN sq}
 CasesOf(comp) ==
   CASE comp = "obstacle"     -> {Case("obstacle", 4, EmbedObst(o)) : o \in ObstaclePool}
     [] comp = "planning"     -> {Case("planning", 4, EmbedPP(p)) : p \in PPPool}
-    \* lanelet / light / intersection: every id-order token; sign: the tokens in rotation over the pool
-    [] comp = "lanelet"      -> {Case("lanelet", 4, Renumber(EmbedLanelet(la), tk)) : la \in LaneletPool, tk \in Range(IdTokens)}
-    [] comp = "sign"         -> LET sq == SetToSeq(SignPool \cup SignAllIds) IN
-                                {Case("sign", 4, Renumber(EmbedSign(sq[i]), IdTokens[(i % Len(IdTokens)) + 1])) : i \in DOMAIN sq}
-    [] comp = "light"        -> {Case("light", 4, Renumber(EmbedLight(t), tk)) : t \in LightPool, tk \in Range(IdTokens)}
-    [] comp = "intersection" -> {Case("intersection", 4, Renumber(EmbedInter(x), tk)) : x \in InterPool, tk \in Range(IdTokens)}
+    \* id-order tokens: ALL of them where the order of ids of different kinds can matter structurally (stop lines that refer
+    \* to signs and lights, intersections with two incomings); in rotation over the rest of the pools
+    [] comp = "lanelet"      -> {Case("lanelet", 4, Renumber(EmbedLanelet(la), tk)) : la \in {x \in LaneletPool : BothRefs(x)}, tk \in Range(IdTokens)}
+                                \cup Rotate("lanelet", {x \in LaneletPool : ~BothRefs(x)}, EmbedLanelet)
+    [] comp = "sign"         -> Rotate("sign", SignPool \cup SignAllIds, EmbedSign)
+    [] comp = "light"        -> Rotate("light", LightPool, EmbedLight)
+    [] comp = "intersection" -> {Case("intersection", 4, Renumber(EmbedInter(x), tk)) : x \in {y \in InterPool : Len(y.incs) = 2}, tk \in Range(IdTokens)}
+                                \cup Rotate("intersection", {y \in InterPool : Len(y.incs) # 2}, EmbedInter)
     [] comp = "header"       -> {Case("header", 4, EmbedHdr(h)) : h \in HeaderPool}
     [] comp = "numbers"      -> {Case("numbers", d, desc) : d \in Precisions, desc \in NumDescs}
     [] comp \in {"mixed", "mixedx"} -> {Case("mixed", RandomElement(Precisions), Renumber(MixedDesc(i), RandomElement(Range(IdTokens)))) : i \in 1..NMixed}   \* see ShardCases
